@@ -31,8 +31,10 @@ import (
 	"testing/synctest"
 	"time"
 
+	"github.com/influxdata/influxdb/toml"
 	"github.com/openGemini/openGemini/lib/config"
 	"github.com/openGemini/openGemini/lib/errno"
+	"github.com/openGemini/openGemini/lib/fileops"
 	"github.com/openGemini/openGemini/lib/interruptsignal"
 	"github.com/openGemini/openGemini/lib/logger"
 	"github.com/openGemini/openGemini/lib/metaclient"
@@ -45,6 +47,7 @@ import (
 	kit "github.com/openGemini/openGemini/lib/verifkit"
 	"go.etcd.io/etcd/raft/v3"
 	"go.etcd.io/etcd/raft/v3/raftpb"
+	"go.etcd.io/etcd/raft/v3/tracker"
 	"go.uber.org/zap"
 )
 
@@ -180,10 +183,12 @@ type c05Replica struct {
 	storage *c05Storage
 
 	// harness book-keeping (role selection and oracle)
-	touch    int  // sequence number of the last event that addressed this replica
-	lagging  bool // restarted and not yet observed with every acknowledged write
-	floor    int  // acknowledged writes this replica was observed to hold (never decreases)
-	restarts int
+	touch          int  // sequence number of the last event that addressed this replica
+	lagging        bool // restarted and not yet observed with every acknowledged write
+	floor          int  // acknowledged writes this replica was observed to hold (never decreases)
+	restarts       int
+	behind         bool // observed, after its restart, without some acknowledged write
+	snapsAtRestart int64
 }
 
 type c05Write struct {
@@ -207,6 +212,8 @@ type c05Group struct {
 	lastTerm      uint64
 	leaderChanges int
 	maxElectMs    int64
+	catchLog      int
+	catchSnap     int
 	log           []string
 }
 
@@ -526,7 +533,10 @@ func (g *c05Group) apply(ev string) *c05Fail {
 		}
 		d.touch = g.evNo
 		d.restarts++
-		d.lagging = true
+		d.lagging, d.behind = true, false
+		g.router.mu.Lock()
+		d.snapsAtRestart = g.router.snapTo[d.id]
+		g.router.mu.Unlock()
 		g.logf("R: restart replica %d", d.id)
 		if err := g.start(d); err != nil {
 			return &c05Fail{Kind: "restart_failed", Detail: fmt.Sprintf("replica %d does not start from its directories: %v", d.id, err)}
@@ -540,8 +550,13 @@ func (g *c05Group) apply(ev string) *c05Fail {
 	}
 	synctest.Wait()
 	g.noteLeader()
+	if c05Verbose {
+		g.logf("after %s: %s", ev, g.describeRaft())
+	}
 	return nil
 }
+
+var c05Verbose bool
 
 // ---- oracle ------------------------------------------------------------------------------------
 
@@ -674,9 +689,24 @@ func c05PtsString(pts []vPoint) string {
 // stepCheck is evaluated after every event at quiescence, without advancing time.
 func (g *c05Group) stepCheck() *c05Fail {
 	total := g.ackedTotal()
+	// "up and caught up": the statement lets a replica that has just (re)joined lag. A replica counts as caught up when
+	// the current leader replicates to it in steady state (raft progress StateReplicate, which a restarted or newly led
+	// member reaches with its first successful append response); until then it only must not lose what it had.
+	inSync := map[int]bool{}
+	if l := g.leader(); l != nil {
+		inSync[l.id] = true
+		for id, p := range l.node.VerifStatus().Progress {
+			if p.State == tracker.StateReplicate {
+				inSync[int(id)-1] = true
+			}
+		}
+	}
 	for _, r := range g.reps {
 		if !r.up {
 			continue
+		}
+		if !inSync[r.id] && !r.lagging {
+			r.lagging = true // catching up with a (new) leader
 		}
 		st, err := r.dump()
 		if err != nil {
@@ -693,7 +723,7 @@ func (g *c05Group) stepCheck() *c05Fail {
 		}
 		if have < need {
 			kind := "acked_write_missing_on_up_replica"
-			if r.lagging {
+			if r.lagging && r.restarts > 0 {
 				kind = "restart_lost_applied_writes"
 			}
 			return &c05Fail{Kind: kind,
@@ -702,8 +732,20 @@ func (g *c05Group) stepCheck() *c05Fail {
 		if have > r.floor {
 			r.floor = have
 		}
-		if have == total {
-			r.lagging = false
+		if have == total && inSync[r.id] {
+			if r.lagging && r.behind {
+				g.router.mu.Lock()
+				bySnap := g.router.snapTo[r.id] > r.snapsAtRestart
+				g.router.mu.Unlock()
+				if bySnap {
+					g.catchSnap++
+				} else {
+					g.catchLog++
+				}
+			}
+			r.lagging, r.behind = false, false
+		} else if r.lagging {
+			r.behind = true
 		}
 	}
 	return nil
@@ -748,7 +790,25 @@ func (g *c05Group) finalCheck() *c05Fail {
 			}
 		}
 		if ok {
+			for _, r := range g.reps {
+				if r.lagging && r.behind {
+					g.router.mu.Lock()
+					bySnap := g.router.snapTo[r.id] > r.snapsAtRestart
+					g.router.mu.Unlock()
+					if bySnap {
+						g.catchSnap++
+					} else {
+						g.catchLog++
+					}
+				}
+				r.lagging, r.behind = false, false
+			}
 			return nil
+		}
+		for i, r := range g.reps {
+			if r.lagging && have[i] < total {
+				r.behind = true
+			}
 		}
 	}
 	l := g.leader()
@@ -789,22 +849,25 @@ type c05Case struct {
 }
 
 type c05Outcome struct {
-	Fail     *c05Fail
-	FailStep int // 1-based event index; len+1 = final phase; 0 = set-up
-	Acked    int
-	Unacked  int
-	Kills    int
-	Restarts int
-	Routed   int64
-	Dropped  int64
-	Snaps    int64
-	Apps     int64
-	Votes    int64
-	Leaders  int
-	MaxElect int64
-	CatchLog int
-	Log      []string
-	Stacks   string
+	Fail      *c05Fail
+	FailStep  int // 1-based event index; len+1 = final phase; 0 = set-up
+	Acked     int
+	Unacked   int
+	Kills     int
+	Restarts  int
+	Routed    int64
+	Dropped   int64
+	Snaps     int64
+	Apps      int64
+	Votes     int64
+	Leaders   int
+	MaxElect  int64
+	CatchLog  int
+	CatchSnap int
+	Truncated int // replicas whose raft log no longer starts at index 1 at the end
+	Snapshots int // replicas with a raft snapshot index > 0 at the end
+	Log       []string
+	Stacks    string
 }
 
 var c05RunSeq int
@@ -828,6 +891,18 @@ func c05Run(base string, seq []string) (out c05Outcome) {
 		out.Routed, out.Dropped, out.Snaps, out.Apps, out.Votes = g.router.routed, g.router.dropped, g.router.snaps, g.router.apps, g.router.votes
 		g.router.mu.Unlock()
 		out.Leaders, out.MaxElect = g.leaderChanges, g.maxElectMs
+		out.CatchLog, out.CatchSnap = g.catchLog, g.catchSnap
+		for _, r := range g.reps {
+			if !r.up {
+				continue
+			}
+			if first, _ := r.node.Store.GetFirstLast(); first > 1 {
+				out.Truncated++
+			}
+			if sp, err := r.node.Store.Snapshot(); err == nil && sp.Metadata.Index > 0 {
+				out.Snapshots++
+			}
+		}
 		for _, r := range g.reps {
 			out.Restarts += r.restarts
 		}
@@ -942,6 +1017,19 @@ func c05Main(t *testing.T, rep *kit.Report) {
 	logger.SetLogger(zap.NewNop())
 	raft.SetLogger(&raft.DefaultLogger{Logger: c05DiscardLogger()})
 	vSetupEngineKnobs()
+	// what app/ts-store/run/server.go installs with config.SetStoreConfig(conf.Data): the package-level default has a
+	// zero tolerate time / size, which would let a leader truncate its log at once while a member is down
+	def := config.NewStore()
+	config.GetStoreConfig().ClearEntryLogTolerateTime = def.ClearEntryLogTolerateTime
+	config.GetStoreConfig().ClearEntryLogTolerateSize = def.ClearEntryLogTolerateSize
+	if tt := kit.Getenv("VERIF_C05_TOLERATE", ""); tt != "" {
+		if d, err := time.ParseDuration(tt); err == nil {
+			config.GetStoreConfig().ClearEntryLogTolerateTime = toml.Duration(d)
+		}
+	}
+	if kit.Getenv("VERIF_C05_FSYNC", "") == "" {
+		fileops.C05NoFsync()
+	}
 	scratch := kit.Scratch()
 	base := vMkdir(scratch, "c05")
 	debug := kit.Getenv("VERIF_C05_DEBUG", "") != ""
@@ -977,6 +1065,18 @@ func c05Main(t *testing.T, rep *kit.Report) {
 			alpha = a
 		}
 		phases = []phase{{depth, alpha}}
+	}
+	if sq := kit.Getenv("VERIF_C05_SEQ", ""); sq != "" {
+		c05Verbose = true
+		out := c05Run(base, strings.Fields(sq))
+		for _, l := range out.Log {
+			fmt.Println("C05-LOG", l)
+		}
+		fmt.Printf("C05-RESULT fail=%v step=%d acked=%d unacked=%d routed=%d snaps=%d catchLog=%d catchSnap=%d truncated=%d snapshots=%d\n", out.Fail, out.FailStep, out.Acked, out.Unacked, out.Routed, out.Snaps, out.CatchLog, out.CatchSnap, out.Truncated, out.Snapshots)
+		if out.Fail != nil {
+			fmt.Printf("C05-RESULT %s: %s\n", out.Fail.Kind, out.Fail.Detail)
+		}
+		return
 	}
 	seen := map[string]bool{}
 	var all [][]string
@@ -1037,6 +1137,10 @@ func c05Main(t *testing.T, rep *kit.Report) {
 		rep.Count("writes_acknowledged", int64(out.Acked))
 		rep.Count("writes_not_acknowledged", int64(out.Unacked))
 		rep.Max("max_virtual_ms_until_leader", out.MaxElect)
+		rep.Count("catch_ups_by_log", int64(out.CatchLog))
+		rep.Count("catch_ups_by_snapshot", int64(out.CatchSnap))
+		rep.Count("replicas_ending_with_truncated_raft_log", int64(out.Truncated))
+		rep.Count("replicas_ending_with_raft_snapshot", int64(out.Snapshots))
 		if out.Kills > 0 && out.Acked > 0 {
 			rep.DistinctNontrivial(kit.Hash(append([]string{"a"}, seq...)...))
 		}
